@@ -270,9 +270,25 @@ func verifStub_TSWriteMPEG4Audio(w *mpegts.Writer, track *mpegts.Track, pts int6
 
 // ---- SPS parsing for RESOLUTION / FRAME-RATE (C16) ----
 
-func verifStub_SPSUnmarshal(s *h264.SPS, buf []byte) error { return nil }
-func verifStub_SPSWidth(s h264.SPS) int                    { return 1920 }
-func verifStub_SPSHeight(s h264.SPS) int                   { return 1080 }
+// the stub remembers which parameter set it was given (profile byte) so that RESOLUTION follows SPS changes
+func verifStub_SPSUnmarshal(s *h264.SPS, buf []byte) error {
+	if len(buf) > 1 {
+		s.ProfileIdc = buf[1]
+	}
+	return nil
+}
+func verifStub_SPSWidth(s h264.SPS) int {
+	if s.ProfileIdc == 0x42 {
+		return 1920
+	}
+	return 1280
+}
+func verifStub_SPSHeight(s h264.SPS) int {
+	if s.ProfileIdc == 0x42 {
+		return 1080
+	}
+	return 720
+}
 func verifStub_SPSFPS(s h264.SPS) float64                  { return 30 }
 
 
